@@ -32,5 +32,6 @@ func TestCheck(t *testing.T) {
 			"SinceTs and Next on an exhausted iterator are not part of the stated property and are not generated"},
 	}
 	pbt.Add(s, &pbt.Spec[txm.Case]{Name: "txn", Gen: gen, Run: txm.Run, Quick: 560, Thorough: 40000, Shards: 16})
+	pbt.Add(s, &pbt.Spec[dbCase]{Name: "db", Gen: genDB, Run: runDB, Quick: 400, Thorough: 20000, Shards: 16})
 	s.Main(t)
 }
